@@ -38,12 +38,14 @@ func DefaultOpts() Opts {
 	return Opts{MaxPackages: 2, MaxFiles: 2, Services: true, Topics: true, Rules: true, ListRules: true, Descs: true, Noise: true, KeyEntity: true}
 }
 
-var pkgWords = []string{"alpha", "beta", "gamma", "delta", "omega", "sigma", "kappa", "theta"}
+// j5, buf and google are also the roots of the packages every generated file
+// refers to (annotations, validate rules, well-known types)
+var pkgWords = []string{"alpha", "beta", "gamma", "delta", "omega", "sigma", "kappa", "theta", "j5", "buf", "google"}
 var typeWords = []string{"Order", "Item", "User", "Account", "Ledger", "Entry", "Shape", "Point", "Route", "Stop", "Ticket", "Note", "Plan", "Task", "Door", "Lamp"}
 var fieldWords = []string{"name", "title", "count", "total", "label", "code", "size", "level", "owner", "parent", "child", "first", "last", "next", "color", "weight", "height", "width", "depth", "score"}
 var fieldWords2 = []string{"Id", "Name", "Count", "Type", "Code", "Date", "Key", "List", "Map", "Value"}
 var oddNames = []string{"userID", "line2", "HTTPServer", "snake_name", "x", "aB", "urlV2", "ID"}
-var enumWords = []string{"ACTIVE", "INACTIVE", "PENDING", "DONE", "RED", "GREEN", "BLUE", "SMALL", "LARGE", "OPEN", "CLOSED"}
+var enumWords = []string{"ACTIVE", "INACTIVE", "PENDING", "DONE", "RED", "GREEN", "BLUE", "SMALL", "LARGE", "OPEN", "CLOSED", "PHASE2", "STEP_3", "V1"}
 var descPool = []string{"A short description.", "Second line\nof text", "Uses \"quotes\" and a \\ backslash", "Multi paragraph\n\nsecond paragraph", "unicode é名", "trailing words here", "Has // slashes and /* stars */"}
 var patternPool = []string{"^[a-z]+$", "^\\d{3}$", "^[A-Z][a-z0-9_]*$", "^a.b$", "^(x|y)z?$", "^[^/]+$", "^[😀-🙏]+$", "^é名$"}
 
@@ -1142,7 +1144,10 @@ func (g *gen) entity() *Entity {
 	if rapid.IntRange(0, 2).Draw(t, "query") == 0 {
 		e.EventsInGet = rapid.Bool().Draw(t, "eig")
 		if rapid.Bool().Draw(t, "dsf") {
-			e.DefaultStatusFilter = []string{e.Statuses[0].Name}
+			e.DefaultStatusFilter = []string{e.Statuses[rapid.IntRange(0, len(e.Statuses)-1).Draw(t, "dsfwhich")].Name}
+			if strings.ContainsAny(e.DefaultStatusFilter[0], "0123456789") {
+				g.cls("default-status-filter:name-with-digit")
+			}
 		}
 	}
 	return e
